@@ -94,7 +94,9 @@ theorem nonNYR_ne (ph : Phase) (h : NYR ph = false) : ph ≠ .created ∧ ph ≠
 /-- changing the phase among phases that carry no life-cycle obligation keeps the profile well-formed -/
 theorem _root_.Taskpool.OKs.setPhase_free {lost : Bool} {s : SoftP} (h : OKs lost s) (ph : Phase)
     (hph : ph = .wrapUp ∨ (ph = .finished ∧ lost = true)) : OKs lost (s.setPhase ph) := by
-  refine ⟨h.e0, h.e1, h.c1, ?_, h.cw, ?_, ?_, h.ord, h.cn, h.en, ?_⟩
+  refine ⟨h.e0, h.e1, h.c1, ?_, h.cw, ?_, ?_, h.ord, h.cn, h.en, ?_, h.s1, ?_⟩
+  rotate_right
+  · intro hc; rcases hph with rfl | ⟨rfl, _⟩ <;> simp [SoftP.setPhase] at hc
   · intro hc; rcases hph with rfl | ⟨rfl, _⟩ <;> simp [SoftP.setPhase] at hc
   · intro hc; rcases hph with rfl | ⟨rfl, _⟩ <;> simp [SoftP.setPhase] at hc
   · intro hc; rcases hph with rfl | ⟨rfl, _⟩ <;> simp [SoftP.setPhase] at hc
@@ -104,13 +106,13 @@ theorem _root_.Taskpool.OKs.setPhase_free {lost : Bool} {s : SoftP} (h : OKs los
     · rw [hl'] at hl; cases hl
 
 theorem _root_.Taskpool.OKs.toLost {lost : Bool} {s : SoftP} (h : OKs lost s) : OKs true s :=
-  ⟨h.e0, h.e1, h.c1, h.c0, h.cw, h.cc, h.ec, h.ord, h.cn, h.en, fun _ hl => by cases hl⟩
+  ⟨h.e0, h.e1, h.c1, h.c0, h.cw, h.cc, h.ec, h.ord, h.cn, h.en, (fun _ hl => by cases hl), h.s1, h.s0⟩
 
 /-- a released task whose callbacks are accounted for may finish -/
 theorem _root_.Taskpool.OKs.finished {lost : Bool} {s : SoftP} (h : OKs lost s) (hr : s.released = true)
     (hne : s.nEC = if s.endCb = .none then 0 else 1)
     (hA : s.wasCancelled = true → s.cancelCb ≠ .none → s.nCC = 1) : OKs lost (s.setPhase .finished) := by
-  refine ⟨h.e0, h.e1, h.c1, ?_, h.cw, ?_, ?_, h.ord, h.cn, h.en, ?_⟩
+  refine ⟨h.e0, h.e1, h.c1, ?_, h.cw, ?_, ?_, h.ord, h.cn, h.en, ?_, h.s1, fun hc => by simp [SoftP.setPhase] at hc⟩
   · intro hc; simp [SoftP.setPhase] at hc
   · intro hc; simp [SoftP.setPhase] at hc
   · intro hc; simp [SoftP.setPhase] at hc
@@ -217,7 +219,7 @@ def _root_.Taskpool.SoftP.release (s : SoftP) : SoftP := { s with released := tr
 
 theorem _root_.Taskpool.OKs.release {lost : Bool} {s : SoftP} (h : OKs lost s) (hph : s.phase = .wrapUp) :
     OKs lost s.release := by
-  refine ⟨fun hc => by simp [SoftP.release] at hc, h.e1, h.c1, h.c0, h.cw, h.cc, ?_, h.ord, h.cn, h.en, ?_⟩
+  refine ⟨fun hc => by simp [SoftP.release] at hc, h.e1, h.c1, h.c0, h.cw, h.cc, ?_, h.ord, h.cn, h.en, ?_, h.s1, h.s0⟩
   · intro hc; have : s.phase = .inEndCb := hc; rw [hph] at this; cases this
   · intro hc; have : s.phase = .finished := hc; rw [hph] at this; cases this
 
@@ -225,7 +227,7 @@ theorem _root_.Taskpool.OKs.incEnd {lost : Bool} {s : SoftP} (h : OKs lost s) (h
     (hph : s.phase = .wrapUp) (hne : s.nEC = 0) (hA : s.wasCancelled = true → s.cancelCb ≠ .none → s.nCC = 1)
     (hecb : s.endCb ≠ .none) : OKs lost (s.incCb true) := by
   have hphase : (s.incCb true).phase = .wrapUp := hph
-  refine ⟨?_, ?_, h.c1, ?_, h.cw, ?_, ?_, ?_, h.cn, ?_, ?_⟩
+  refine ⟨?_, ?_, h.c1, ?_, h.cw, ?_, ?_, ?_, h.cn, ?_, ?_, h.s1, fun hc => by rw [hphase] at hc; rcases hc with hc | hc <;> cases hc⟩
   · intro hc; have : s.released = false := hc; rw [hr] at this; cases this
   · show s.nEC + 1 ≤ 1; omega
   · intro hc; rw [hphase] at hc; rcases hc with hc | hc <;> cases hc
@@ -237,7 +239,7 @@ theorem _root_.Taskpool.OKs.incEnd {lost : Bool} {s : SoftP} (h : OKs lost s) (h
 
 theorem _root_.Taskpool.OKs.toEndCb {lost : Bool} {s : SoftP} (h : OKs lost s) (hr : s.released = true)
     (hne : s.nEC = 1) (hecb : s.endCb = .coro) : OKs lost (s.setPhase .inEndCb) := by
-  refine ⟨h.e0, h.e1, h.c1, ?_, h.cw, ?_, ?_, h.ord, h.cn, h.en, ?_⟩
+  refine ⟨h.e0, h.e1, h.c1, ?_, h.cw, ?_, ?_, h.ord, h.cn, h.en, ?_, h.s1, fun hc => by simp [SoftP.setPhase] at hc⟩
   · intro hc; simp [SoftP.setPhase] at hc
   · intro hc; simp [SoftP.setPhase] at hc
   · intro _; exact ⟨hne, hecb, hr⟩
@@ -373,7 +375,7 @@ def _root_.Taskpool.SoftP.markCancelled (s : SoftP) : SoftP := { s with wasCance
 theorem _root_.Taskpool.OKs.markCancelled {lost : Bool} {s : SoftP} (h : OKs lost s) (hph : s.phase = .wrapUp)
     (hrel : s.released = false) : OKs lost s.markCancelled := by
   have hne := h.e0 hrel
-  refine ⟨h.e0, h.e1, h.c1, ?_, fun _ => rfl, h.cc, h.ec, ?_, h.cn, h.en, ?_⟩
+  refine ⟨h.e0, h.e1, h.c1, ?_, fun _ => rfl, h.cc, h.ec, ?_, h.cn, h.en, ?_, h.s1, h.s0⟩
   · intro hc; have : s.phase = .created ∨ s.phase = .inWorker := hc; rw [hph] at this; rcases this with h | h <;> cases h
   · intro hc; have : s.nEC = 1 := hc; omega
   · intro hc; have : s.phase = .finished := hc; rw [hph] at this; cases this
@@ -383,7 +385,7 @@ theorem _root_.Taskpool.OKs.incCancel {lost : Bool} {s : SoftP} (h : OKs lost s)
     OKs lost (s.incCb false) := by
   have hphase : (s.incCb false).phase = .wrapUp := hph
   have hne := h.e0 hrel
-  refine ⟨h.e0, h.e1, ?_, ?_, fun _ => hw, ?_, ?_, ?_, ?_, h.en, ?_⟩
+  refine ⟨h.e0, h.e1, ?_, ?_, fun _ => hw, ?_, ?_, ?_, ?_, h.en, ?_, h.s1, fun hc => by rw [hphase] at hc; rcases hc with hc | hc <;> cases hc⟩
   · show s.nCC + 1 ≤ 1; omega
   · intro hc; rw [hphase] at hc; rcases hc with hc | hc <;> cases hc
   · intro hc; rw [hphase] at hc; cases hc
@@ -395,7 +397,7 @@ theorem _root_.Taskpool.OKs.incCancel {lost : Bool} {s : SoftP} (h : OKs lost s)
 theorem _root_.Taskpool.OKs.toCancelCb {lost : Bool} {s : SoftP} (h : OKs lost s) (hn : s.nCC = 1)
     (hccb : s.cancelCb = .coro) (hrel : s.released = false) : OKs lost (s.setPhase .inCancelCb) := by
   have hne := h.e0 hrel
-  refine ⟨h.e0, h.e1, h.c1, ?_, h.cw, ?_, ?_, h.ord, h.cn, h.en, ?_⟩
+  refine ⟨h.e0, h.e1, h.c1, ?_, h.cw, ?_, ?_, h.ord, h.cn, h.en, ?_, h.s1, fun hc => by simp [SoftP.setPhase] at hc⟩
   · intro hc; simp [SoftP.setPhase] at hc
   · intro _; exact ⟨hn, hccb⟩
   · intro hc; simp [SoftP.setPhase] at hc
@@ -472,7 +474,7 @@ theorem good_taskCancellation {cap : Cap} (p : Pool) (t : Nat) (tk : PTask) (hg 
 
 theorem _root_.Taskpool.OKs.toInWorker {lost : Bool} {s : SoftP} (h : OKs lost s)
     (hc : s.phase = .created ∨ s.phase = .inWorker) : OKs lost (s.setPhase .inWorker) := by
-  refine ⟨h.e0, h.e1, h.c1, fun _ => h.c0 hc, h.cw, ?_, ?_, h.ord, h.cn, h.en, ?_⟩
+  refine ⟨h.e0, h.e1, h.c1, fun _ => h.c0 hc, h.cw, ?_, ?_, h.ord, h.cn, h.en, ?_, h.s1, fun _ => h.s0 hc⟩
   · intro hx; simp [SoftP.setPhase] at hx
   · intro hx; simp [SoftP.setPhase] at hx
   · intro hx; simp [SoftP.setPhase] at hx
@@ -535,13 +537,29 @@ theorem good_stepCreated {cap : Cap} (p : Pool) (t : Nat) (tk : PTask) (hg : Goo
       · rw [t2.can] at h; exact absurd h hnc
       · exact (hc2.ok hg2).toInWorker (Or.inr rfl)
 
+def _root_.Taskpool.SoftP.sawCancel (s : SoftP) : SoftP := { s with phase := .wrapUp, nSaw := s.nSaw + 1 }
+
+theorem _root_.Taskpool.OKs.sawCancel {lost : Bool} {s : SoftP} (h : OKs lost s) (hn : s.nSaw = 0) : OKs lost s.sawCancel := by
+  refine ⟨h.e0, h.e1, h.c1, ?_, h.cw, ?_, ?_, h.ord, h.cn, h.en, ?_, ?_, ?_⟩
+  · intro hc; simp [SoftP.sawCancel] at hc
+  · intro hc; simp [SoftP.sawCancel] at hc
+  · intro hc; simp [SoftP.sawCancel] at hc
+  · intro hc; simp [SoftP.sawCancel] at hc
+  · show s.nSaw + 1 ≤ 1; omega
+  · intro hc; simp [SoftP.sawCancel] at hc
+
+/-- the worker observes a `CancelledError` at its suspension point — for the first and only time -/
 theorem good_workerCancelled {cap : Cap} (p : Pool) (t : Nat) (tk : PTask) (hg : Good cap p) (s : SoftP) (hc : p.Cur t s)
-    (hw : InWork s) (hspec : tk.cancelCb = s.cancelCb) : Good cap (p.workerCancelled t tk) := by
+    (hw : InWork s) (hsaw : s.nSaw = 0) (hspec : tk.cancelCb = s.cancelCb) : Good cap (p.workerCancelled t tk) := by
   unfold workerCancelled
   simp only
   have t0 := tame_logEv p (Ev.sawCancel t)
-  obtain ⟨hg1, hc1⟩ := good_toWrapUp (p.logEv (Ev.sawCancel t)) t (fun k => { k with sawCancel := true, phase := .wrapUp })
-    (fun _ => rfl) (t0.good hg) s (t0.cur hc)
+  have hc0 := t0.cur hc
+  have hg0 := t0.good hg
+  obtain ⟨hg1, hc1⟩ := good_cur (p.logEv (Ev.sawCancel t)) t
+    (fun k => { k with sawCancel := true, phase := .wrapUp, nSaw := k.nSaw + 1 }) (fun s => s.sawCancel) (fun _ => rfl)
+    hg0 s hc0 rfl (fun h => by simp [SoftP.sawCancel, NYR] at h) (fun _ => by simp [SoftP.sawCancel])
+    ((hc0.ok hg0).sawCancel hsaw)
   split
   · exact good_afterWorker _ t _ hg1 _ hc1 ⟨hw.rel, hw.ncc, hw.wc⟩
   · exact good_taskCancellation _ t tk hg1 _ hc1 rfl hw.rel hw.ncc hw.wc hspec
@@ -552,7 +570,7 @@ theorem good_stepInWorker {cap : Cap} (p : Pool) (t : Nat) (tk : PTask) (hg : Go
   unfold stepInWorker
   split
   · have t0 := tame_modTask p t (fun k => { k with mustCancel := false })
-    exact good_workerCancelled _ t tk (t0.good hg) s (t0.cur hc) hw hspec
+    exact good_workerCancelled _ t tk (t0.good hg) s (t0.cur hc) hw ((hc.ok hg).s0 (Or.inr hph)) hspec
   · split
     · exact good_afterWorker p t _ hg s hc hw
     · exact good_afterWorker p t _ hg s hc hw
